@@ -259,3 +259,80 @@ def kornia_crop_and_resize(interp, input_tensor, boxes, size, mode="bilinear", p
         return V.f_ite(V.zbool(int_corner), exact, blend)
 
     return T.from_fn([B, input_tensor.shape[1], oh, ow], FLOAT, fn)
+
+
+# ------------------------------------------------------------------------- networkx (concrete)
+
+
+class NxDiGraph:
+    """Concrete model of networkx.DiGraph for hashable concrete nodes: nodes and adjacency in
+    insertion order (the documented iteration order of networkx graphs)."""
+
+    __pyvc_native__ = True
+
+    def __init__(self, edges=()):
+        self.nodes_ = []
+        self.succ = {}
+        self.pred = {}
+        for e in edges:
+            u, v = e
+            for n in (u, v):
+                if n not in self.succ:
+                    self.nodes_.append(n)
+                    self.succ[n] = []
+                    self.pred[n] = []
+            if v not in self.succ[u]:
+                self.succ[u].append(v)
+                self.pred[v].append(u)
+
+
+@lib("networkx.DiGraph")
+def nx_digraph(interp, edges=None):
+    es = []
+    for e in interp.iterate_concrete(edges or []):
+        u, v = interp.iterate_concrete(e)
+        es.append((interp.conc_key(u), interp.conc_key(v)))
+    return NxDiGraph(es)
+
+
+@lib("networkx.topological_sort")
+def nx_topological_sort(interp, g):
+    """Contract: a node is yielded only after all its predecessors; among ready nodes the
+    order is the graph's node order (networkx: topological_generations).  Raises
+    NetworkXUnfeasible on a cycle."""
+    indeg = {n: len(g.pred[n]) for n in g.nodes_}
+    ready = [n for n in g.nodes_ if indeg[n] == 0]
+    out = []
+    while ready:
+        nxt = []
+        for n in ready:
+            out.append(n)
+            for m in g.succ[n]:
+                indeg[m] -= 1
+                if indeg[m] == 0:
+                    nxt.append(m)
+        ready = nxt
+    if len(out) != len(g.nodes_):
+        raise PyExc("NetworkXUnfeasible", ("Graph contains a cycle or graph changed during iteration",))
+    from .lib_py import _Iter
+
+    return _Iter(out)
+
+
+@lib("networkx.bfs_edges")
+def nx_bfs_edges(interp, g, source, reverse=False, depth_limit=None, sort_neighbors=None):
+    """Contract: every edge (u, v) that discovers a new node v in a breadth-first search from
+    `source`, each once, an edge out of u only after the edge that discovered u."""
+    if source not in g.succ:
+        raise PyExc("NetworkXError", ("The node %r is not in the graph" % (source,),))
+    seen = {source}
+    queue = [source]
+    out = []
+    while queue:
+        u = queue.pop(0)
+        for v in g.succ[u]:
+            if v not in seen:
+                seen.add(v)
+                out.append((u, v))
+                queue.append(v)
+    return out
